@@ -3235,7 +3235,7 @@ func flatten(b *nom.AccountBlock, out []*nom.AccountBlock) []*nom.AccountBlock {
 	return out
 }
 
-const subStall = 60 * time.Second
+const subStall = 240 * time.Second // far beyond any scheduling delay: only a notification that never comes gets here
 
 // keySubDuplicate: InsertMomentum (rpc/api/subscribe/api.go) converts every block of the momentum's content with
 // newAccountBlock, which also walks the block's DescendantBlocks; the descendants (the sends a contract generates
